@@ -237,6 +237,41 @@ func genValue(r *gen.Rand, source string, wild bool) *T {
 			v.TS = append(v.TS, genString(r, source, w()))
 		}
 	}
+	if on() {
+		v.I16 = int16(genInt(r, 16))
+	}
+	if on() {
+		v.I32 = int32(genInt(r, 32))
+	}
+	if on() {
+		v.U8 = uint8(genUint(r, 8))
+	}
+	if on() {
+		v.U32 = uint32(genUint(r, 32))
+	}
+	if on() {
+		for i := sliceLen(r); i > 0; i-- {
+			v.I8S = append(v.I8S, int8(genInt(r, 8)))
+		}
+	}
+	if on() {
+		for i := sliceLen(r); i > 0; i-- {
+			v.U16S = append(v.U16S, uint16(genUint(r, 16)))
+		}
+	}
+	if on() {
+		for i := sliceLen(r); i > 0; i-- {
+			v.F32S = append(v.F32S, genF32(r, w()))
+		}
+	}
+	if on() {
+		for i := sliceLen(r); i > 0; i-- {
+			v.NT = append(v.NT, genString(r, source, w()))
+		}
+	}
+	if on() {
+		v.N = genString(r, source, w())
+	}
 	return v
 }
 
@@ -286,6 +321,10 @@ func fixValue(v *T, source string) {
 	for i := range v.TS {
 		v.TS[i] = fixString(v.TS[i], source)
 	}
+	for i := range v.NT {
+		v.NT[i] = fixString(v.NT[i], source)
+	}
+	v.N = fixString(v.N, source)
 	ff := func(f float64) float64 {
 		if math.IsNaN(f) || math.IsInf(f, 0) {
 			return 0
@@ -296,6 +335,9 @@ func fixValue(v *T, source string) {
 		v.F32, v.F64 = float32(ff(float64(v.F32))), ff(v.F64)
 		for i := range v.FS {
 			v.FS[i] = ff(v.FS[i])
+		}
+		for i := range v.F32S {
+			v.F32S[i] = float32(ff(float64(v.F32S[i])))
 		}
 	}
 }
